@@ -71,6 +71,12 @@ def main() -> int:
         fired = {k: v for k, v in fired.items() if v}
         own = want in fired
         name = pathlib.Path(r["dir"]).name
+        if name.startswith("twin-"):
+            bad = {k: v[:2] for k, v in fired.items()}
+            print(f"{'SILENT' if not bad and not errs else 'FALSE-ALARM'} {name} (preserves {want}): {bad if bad else ''}" + (f" ERRORS={ {k: v[:1] for k, v in errs.items()} }" if errs else ""))
+            if bad or errs:
+                own_miss.append(name)
+            continue
         others = sorted(k for k in fired if k != want)
         print(f"{'CAUGHT' if own else 'MISSED-BY-OWN'} {name} (breaks {want}): own={fired.get(want, [])[:2]} others={others}" + (f" ERRORS={sorted(errs)}" if errs else ""))
         if not own:
